@@ -26,6 +26,28 @@ def hold_spec(name, hold, queue, depth, **kw):
     return s
 
 
+def ten_spec(depth, queue=False):
+    """Ids that share digits: pull request 1 is merged, pull request 10 is
+    open, the subject (11) depends on 10."""
+    init = [['open', 'bugfix/TEST-0', 'development/5.1'],
+            ['ci_int', 1, 'SUCCESSFUL'], ['eval_pr', 1]]      # merged (noq)
+    if queue:
+        init += [['ci_q_all', 'SUCCESSFUL'], ['eval_pr', 1]]
+    for k in range(2, 10):
+        init += [['open', 'bugfix/FILL-%d' % k, 'development/5.1'],
+                 ['decline', k]]
+    init += [['open', SRC[1], 'development/5.1'],              # id 10
+             ['open', SRC[0], 'development/4.3'],              # id 11
+             ['ci_int', 11, 'SUCCESSFUL']]
+    s = hold_spec('c12-%s-after-ten' % ('q' if queue else 'noq'),
+                  '@robot after_pull_request=10', queue, depth,
+                  merge_pr2=True, decline=False)
+    s['init'] = init
+    s['subject'] = 11
+    s['dependency'] = 10
+    return s
+
+
 HOLDS = [('wait', '@robot wait'),
          ('after-open', '@robot after_pull_request=2'),
          ('after-declined', '@robot after_pull_request=3'),
@@ -64,6 +86,7 @@ def specs(tier):
                           decline=False),
                 hold_spec('c12-noq-after-two-rev', HOLDS[7][1], False, 3,
                           decline=False),
+                ten_spec(3),
                 pairs_spec(False)]
     out = []
     for queue in (False, True):
@@ -73,6 +96,7 @@ def specs(tier):
                                  merge_pr2=tag in ('after-open', 'after-two',
                                                   'after-two-rev')))
         out.append(pairs_spec(queue))
+        out.append(ten_spec(5, queue))
     return out
 
 
